@@ -128,7 +128,7 @@ CHECKS = [
               "== per-pixel sum of all records; output schema-valid",
           bounds=dict(quick="<=4 chunks, <=2 records each, n<=3 bins, mergebuf 1..R+1, max_merge 1..m+1", thorough="<=5 chunks, <=3 records each, n<=4"),
           stubs=("E3 in-memory h5py model", "E4 pandas models", "E8 tempfile.NamedTemporaryFile: real temporary files as markers"),
-          outside=("no temporary file outlives the run (interpreter finalisation)",), timeout=3000),
+          outside=("no temporary file outlives the run (interpreter finalisation)",), timeout=3400, split_depth=9),
     Check("breakpoints", lambda tier: [dict(n=n, k=k, maxrow=2) for n, k in ([(2, 2), (3, 2)] if tier == "quick" else [(2, 2), (3, 2), (3, 3), (4, 2)])],
           bp_sym, bp_real, labels=("oversized_row", "several_epochs"),
           doc="merge_breakpoints on symbolic offset indexes and buffer size (stdlib bisect driving symbolic comparisons)",
